@@ -8,6 +8,11 @@ and each event list is compared with the independent reference vf/ref/reftap.py 
 statement fixes (subtests: number/name/status; error *kinds* as a set at the statement's granularity; plan,
 version, bail-out).  Contracts watched on the real parser while it runs: never raises, `state` stays inside
 its three values, `num_tests`/`lineno`/`highest_test` never decrease, parse() == concatenation of parse_line().
+Every stream is parsed a second time through TAPParser.parse_async() (the entry point TestRunTAP/`meson test` use): its
+events are held to the same comparison with the reference.  The YAML region (`TAP version 13` + sequences over the forms
+that enter/leave/break a YAML block, column-0 diagnostics and empty lines included) is enumerated two lines deeper.
+How the program ends is a dimension of the real `meson test` sample: exit codes and death by each signal after a
+stream that is good on its own (testlog.json result and returncode, exit status of `meson test`).
 The verdict fold is observed on the real TestRunTAP (parse + complete, icontract post-conditions on
 complete) over streams x exit codes, and on a small sample through a real `meson test` (protocol: 'tap').
 """
@@ -28,7 +33,7 @@ from vf.ref import reftap
 MT: T.Any = None          # the real mesonbuild.mtest, loaded by load_real()
 EOF_MARK = -1
 BAD_RESULT_VALUES = {'FAIL', 'TIMEOUT', 'INTERRUPT', 'UNEXPECTEDPASS', 'ERROR'}
-EXIT_CODES = [0, 1, 2, 77, 99, 255, -11]
+EXIT_CODES = [0, 1, 2, 77, 99, 255, -11, -15, -9, -2, -1]   # negative: death by signal, as asyncio/subprocess report it
 
 KNOWN_COMPENSATING = 'compensating-duplicate-and-missing-number'
 KNOWN_BELOW_ONE = 'number-below-one-hides-missing-number'
@@ -91,6 +96,44 @@ def observe(lines: T.Sequence[str]) -> Obs:
     except Exception as e:   # the property: no input makes the parser raise
         obs.raised = f'{type(e).__name__}: {e}'[:300]
     return obs
+
+
+def observe_async(lines: T.Sequence[str]) -> T.Optional[Obs]:
+    """The same observation through TAPParser().parse_async(<async iterator of the lines>) -- the entry point `meson test`
+    (TestRunTAP.parse) uses.  Nothing in it really waits, so the collecting coroutine is driven by hand (no event loop).
+    -> None when the real parser has no parse_async."""
+    P = MT.TAPParser
+    parser = P()
+    if not hasattr(parser, 'parse_async'):
+        return None
+    obs = Obs()
+    obs.nlines = len(lines)
+    cur = [0]
+
+    async def feeder() -> T.AsyncIterator[str]:
+        for i, l in enumerate(lines):
+            cur[0] = i
+            yield l
+        cur[0] = len(lines)
+
+    async def collect() -> None:
+        async for ev in parser.parse_async(feeder()):
+            obs.events.append((cur[0], ev))
+
+    coro = collect()
+    try:
+        coro.send(None)
+        coro.close()
+        obs.raised = 'Suspended: parse_async waited for something other than its line iterator'
+    except StopIteration:
+        pass
+    except Exception as e:   # the property: no input makes the parser raise
+        obs.raised = f'{type(e).__name__}: {e}'[:300]
+    return obs
+
+
+def ev_key(ev: T.Any) -> T.Tuple[T.Any, ...]:
+    return (ename(ev), tuple(ev))
 
 
 def observe_by_line(lines: T.Sequence[str]) -> T.Tuple[T.Optional[T.List[T.Any]], T.List[str], int]:
@@ -307,6 +350,26 @@ def check_stream(acc: Acc, phase: str, lines: T.Sequence[str], by_line: bool = F
             acc.count('observed:kind:' + k)
         for k in ref.unfixed:
             acc.count('observed:unfixed:' + k)
+    # ---- the asynchronous entry point (the one TestRunTAP.parse / `meson test` goes through): the events it yields are held
+    #      to the same statement.  Identical event lists (same events attributed to the same lines) have the identical
+    #      verdict of compare() above; anything else is compared against the reference on its own.
+    obs_a = observe_async(lines)
+    if obs_a is None:
+        acc.count('parse_async-absent')
+    else:
+        acc.count('monitor:parse_async-never-raises')
+        if obs_a.raised:
+            if not obs.raised:
+                fs.append(('parse_async-raised:' + obs_a.raised.split(':', 1)[0], {'raised': obs_a.raised}))
+        elif not obs.raised:
+            if not ref.ambiguous:
+                acc.count('monitor:differential-vs-reftap:parse_async')
+            acc.count('monitor:parse_async-same-events-as-parse')
+            if [(i, ev_key(e)) for i, e in obs.events] != [(i, ev_key(e)) for i, e in obs_a.events]:
+                have = {m for m, _ in fs}
+                extra = [(m + '[parse_async]', {**d, 'parse_async_events': [ev_json(e) for _, e in obs_a.events][:30]})
+                         for m, d in compare(lines, obs_a, ref) if m not in have]
+                fs += extra or [('parse_async-events-differ-from-parse', {'parse_async_events': [ev_json(e) for _, e in obs_a.events][:30]})]
     if by_line and not obs.raised:
         evs, contract, calls = observe_by_line(lines)
         acc.count('monitor:parse_line-contract', calls)
@@ -616,7 +679,7 @@ def work_exhaustive(item: T.Tuple[T.Any, ...]) -> dict:
     do_pipe = eol != '' and not only_full
     full_extras = os.environ.get('VERIF_TIER', 'quick') != 'quick'
     pipe_len = 3
-    alpha = gen.CORE if alpha_name == 'core' else gen.EXTENDED
+    alpha = gen.ALPHABETS[alpha_name]
     acc = Acc()
     forms = [a + eol for a in alpha]
     pre = [forms[i] for i in prefix]
@@ -762,6 +825,50 @@ MESON_STDERR: T.List[T.Tuple[str, str, str, int]] = [
 ]
 STDERR_VARIANTS: T.List[T.List[str]] = [['--no-stdsplit'], ['--no-stdsplit', '--verbose'], ['--no-stdsplit', '--print-errorlogs'],
                                         ['--verbose'], ['--print-errorlogs', '--num-processes', '1']]
+
+
+# how the program ENDS is a dimension of its own: after printing its (complete) stream the program dies by a signal instead of
+# exiting.  "The program exited non-zero" covers every such death: the stream alone must not decide the verdict.
+EMIT_SIG = """import os, signal, sys, time
+with open(sys.argv[1], 'rb') as f:
+    data = f.read()
+sys.stdout.buffer.write(data)
+sys.stdout.buffer.flush()
+sig = int(sys.argv[2])
+try:
+    import resource
+    resource.setrlimit(resource.RLIMIT_CORE, (0, 0))     # no core files in the build directory
+except Exception:
+    pass
+try:
+    signal.signal(sig, signal.SIG_DFL)                   # whatever disposition was inherited (SIGKILL cannot be set)
+except (OSError, ValueError, RuntimeError):
+    pass
+try:
+    signal.pthread_sigmask(signal.SIG_UNBLOCK, {sig})
+except Exception:
+    pass
+os.kill(os.getpid(), sig)
+time.sleep(5)
+os._exit(%d)       # the signal did not end this process: the case says nothing
+"""
+SIGNAL_NOT_FATAL_EXIT = 117
+SIGNAL_NAMES = ['SIGTERM', 'SIGKILL', 'SIGSEGV', 'SIGINT', 'SIGHUP', 'SIGABRT', 'SIGPIPE', 'SIGQUIT', 'SIGUSR1', 'SIGALRM', 'SIGBUS']
+SIGNAL_NAMES_THOROUGH = ['SIGUSR2', 'SIGFPE', 'SIGILL', 'SIGTRAP', 'SIGXCPU', 'SIGVTALRM', 'SIGXFSZ', 'SIGPROF', 'SIGSYS']
+SIGNAL_STREAMS_SMALL = ('planfirst', 'allskip', 'noplan')      # the streams of the serial/verbose and the per-signal invocations
+# (name, stdout): good on their own (plan first / plan last / no plan / all skipped / skip plan / nothing at all / TAP 13 with YAML)
+# plus two that are bad anyway (controls)
+SIGNAL_STREAMS: T.List[T.Tuple[str, str]] = [
+    ('planfirst', '1..2\nok 1 first\nok 2 second\n'),
+    ('planlast', 'ok 1\nnot ok 2 # TODO not yet\n1..2\n'),
+    ('noplan', 'ok 1 only\n'),
+    ('allskip', '1..2\nok 1 # SKIP a\nok 2 # skipped b\n'),
+    ('skipplan', '1..0 # SKIP nothing to do\n'),
+    ('silent', ''),
+    ('yaml13', 'TAP version 13\n1..1\nok 1\n  ---\n  k: v\n  ...\n'),
+    ('failing', '1..2\nok 1\nnot ok 2 broken\n'),
+    ('toofew', '1..3\nok 1\n'),
+]
 
 
 # raw BYTES that are not valid UTF-8 (legacy encodings, truncated sequences, binary junk), placed where TAP does not care:
@@ -947,7 +1054,16 @@ def _judge(chk: common.Check, inv: dict, cases: T.Dict[str, dict], label: str) -
             chk.violation('meson-test-unknown-result', {'phase': 'meson-test', 'test': tn, 'invocation': inv['args']})
             continue
         lines, rc = c['lines'], c['rc']
+        if c.get('signal') and j.get('returncode') == SIGNAL_NOT_FATAL_EXIT:
+            chk.count('meson-test:signal-did-not-end-the-program:' + c['signal'])     # says nothing about the verdict
+            decided = False
+            continue
         chk.count('monitor:meson-test-verdict')
+        if c.get('signal'):
+            chk.count('observed:meson-test:death-by-signal')
+            chk.count('observed:meson-test:death-by-signal:' + c['signal'])
+            if not ref_bad_by_stream(lines):
+                chk.count('observed:meson-test:death-by-signal-after-good-stream')
         if any(not l.strip('\r\n') for l in lines[:-1]):
             chk.count('observed:meson-test:stream-with-empty-line-before-more')
         if '--verbose' in inv['args'] or tn.startswith('serv_'):
@@ -968,7 +1084,8 @@ def _judge(chk: common.Check, inv: dict, cases: T.Dict[str, dict], label: str) -
         expect_any_bad = expect_any_bad or expect_bad
         got_bad = j['result'] in BAD_RESULT_VALUES
         if j.get('returncode') != rc:
-            chk.violation('meson-test-returncode-differs', {'phase': 'meson-test', 'test': tn, 'got': j.get('returncode'), 'rc': rc})
+            chk.violation('meson-test-returncode-differs', {'phase': 'meson-test', 'test': tn, 'got': j.get('returncode'), 'rc': rc,
+                                                            'signal': c.get('signal'), 'lines': clip_lines(lines), 'invocation': inv['args']})
         if got_bad != expect_bad:
             decided = False     # the exit status then follows a wrong verdict; that one is what gets reported
             mech = 'meson-test-verdict:' + ('bad-run-reported-' if expect_bad else 'good-run-reported-') + str(j['result'])
@@ -982,11 +1099,13 @@ def _judge(chk: common.Check, inv: dict, cases: T.Dict[str, dict], label: str) -
                 pm = sorted(m for m in acc.found if m.startswith('pipeline-'))
                 if pm:
                     mech += '(' + pm[0] + ')'
+                elif c.get('signal') and expect_bad and not ref_bad_by_stream(lines):
+                    mech += f'(good-stream-then-death-by-{c["signal"]})'
                 elif c.get('stderr') and '--no-stdsplit' in inv['args']:
                     mech += '(stderr-text-changes-verdict' + (':' + '+'.join(a for a in inv['args'] if a.startswith('--') and
                                                                              a not in ('--num-processes', '--suite')) if label != 'all' else '') + ')'
             chk.violation(mech, {'phase': 'meson-test', 'test': tn, 'invocation': inv['args'], 'lines': clip_lines(lines), 'rc': rc,
-                                 'stderr': c.get('stderr'), 'reported': j['result'], 'expected_bad': expect_bad, 'reference': ref.summary()})
+                                 'signal': c.get('signal'), 'stderr': c.get('stderr'), 'reported': j['result'], 'expected_bad': expect_bad, 'reference': ref.summary()})
     for tn in c_selected(inv, cases):
         if tn not in inv['results']:
             chk.violation('meson-test-result-missing', {'phase': 'meson-test', 'test': tn, 'invocation': inv['args']})
@@ -1001,6 +1120,12 @@ def _judge(chk: common.Check, inv: dict, cases: T.Dict[str, dict], label: str) -
                                                        f'exit-{inv["rc"]}-with-only-good-tests'),
                           {'phase': 'meson-test', 'invocation': inv['args'], 'exit': inv['rc'],
                            'results': {k: v['result'] for k, v in inv['results'].items()}, 'run': inv['brief']})
+
+
+def ref_bad_by_stream(lines: T.Sequence[str]) -> bool:
+    """would the stream alone (exit status 0) make the test bad?"""
+    ref = reftap.consume(lines)
+    return (not ref.ambiguous) and ref.expect_bad(0)
 
 
 def _runs_serially(inv: dict, tn: str, cases: T.Dict[str, dict]) -> bool:
@@ -1090,6 +1215,26 @@ def meson_sample(chk: common.Check) -> None:
         cases[nm] = {'lines': split_stdout(text), 'rc': rc, 'bytes': True}
         bytes_names.append(nm)
         mb.append(f"test('{nm}', py, args: [emit2, files('b{i:02d}.out'), '{rc}', files('b{i:02d}.err')], protocol: 'tap', suite: 'bytes')")
+    # death by signal after the stream: every signal x every stream (seeded: which half of the signals also runs serially)
+    import signal as _signal
+    files['emitsig.py'] = EMIT_SIG % SIGNAL_NOT_FATAL_EXIT
+    mb.append("emitsig = files('emitsig.py')")
+    signal_names: T.List[str] = []
+    by_signal: T.Dict[str, T.List[str]] = {}
+    for i, (nm, text) in enumerate(SIGNAL_STREAMS):
+        files[f'g{i:02d}.tap'] = text.encode('utf-8')
+    for sname in SIGNAL_NAMES + ([] if chk.tier == 'quick' else SIGNAL_NAMES_THOROUGH):
+        signo = getattr(_signal, sname, None)
+        if signo is None:
+            continue
+        for i, (nm, text) in enumerate(SIGNAL_STREAMS):
+            serial = rng.random() < 0.25
+            tn = f'sig_{sname}_{nm}' + ('_ser' if serial else '')
+            cases[tn] = {'lines': split_stdout(text), 'rc': -int(signo), 'signal': sname}
+            signal_names.append(tn)
+            by_signal.setdefault(sname, []).append(tn)
+            mb.append(f"test('{tn}', py, args: [emitsig, files('g{i:02d}.tap'), '{int(signo)}'], protocol: 'tap', suite: 'signals'"
+                      + (", is_parallel: false" if serial else '') + ')')
     files['meson.build'] = '\n'.join(mb) + '\n'
     runner.write_tree(src, files)
     r = runner.meson(['setup', bdir], cwd=src, timeout=120)
@@ -1137,6 +1282,14 @@ def meson_sample(chk: common.Check) -> None:
     for k, variant in enumerate(([], ['--verbose'], ['--print-errorlogs', '--num-processes', '1'])):
         jobs.append((f'bytes-strict-console{k}', f'bytes{k}', bytes_names, variant + ['--suite', 'bytes']))
         cold.add(f'bytes{k}')
+    # death by signal: the whole suite (parallel / one verbose process), then per signal a small invocation in which the only
+    # bad tests are good streams whose program died by that signal (the exit status of `meson test` is decided by them alone)
+    jobs.append(('signals', 'signals0', signal_names, ['--num-processes', '4', '--suite', 'signals']))
+    small = [tn for tn in signal_names if tn.split('_')[2] in SIGNAL_STREAMS_SMALL]
+    jobs.append(('signals-verbose-one-process', 'signals1', small, ['--verbose', '--num-processes', '1'] + small))
+    for k, (sname, tns) in enumerate(sorted(by_signal.items())):
+        alone = [tn for tn in tns if tn.split('_')[2] in SIGNAL_STREAMS_SMALL]
+        jobs.append((f'only:death-by-{sname}', f'sigonly{k}', good + alone, good + alone))
     todo = [(src, bdir, logbase, args, logbase in cold) for _, logbase, _, args in jobs]
     invs = common.pmap(_invoke, todo, min(chk.jobs, 6))
     for (label, _, selected, _), inv in zip(jobs, invs):
@@ -1236,10 +1389,43 @@ PINNED: T.List[T.List[str]] = [s.splitlines(True) for s in [
 ]]
 
 
+def signal_case_real(text: str, signo: int, args: T.Sequence[str] = ()) -> dict:
+    """one protocol:'tap' test whose program prints `text` and dies by `signo`, through a real `meson test`"""
+    runner.preload()
+    d = common.scratch_dir('c18sig')
+    src, bdir = os.path.join(d, 'src'), os.path.join(d, 'b')
+    runner.write_tree(src, {'emitsig.py': EMIT_SIG % SIGNAL_NOT_FATAL_EXIT, 'g.tap': text.encode('utf-8'),
+                            'meson.build': "project('c18sig')\npy = find_program('/venv/bin/python')\n"
+                                           f"test('t', py, args: [files('emitsig.py'), files('g.tap'), '{signo}'], protocol: 'tap')\n"})
+    r = runner.meson(['setup', bdir], cwd=src, timeout=120)
+    if r.rc != 0 or r.timed_out:
+        return {'error': 'setup failed', 'run': r.brief()}
+    flags = [a for a in args if a in ('--verbose', '--print-errorlogs', '--no-stdsplit', '--quiet')]
+    inv = _invoke((src, bdir, 'replay', flags))
+    j = (inv.get('results') or {}).get('t') or {}
+    return {'meson_test_exit': inv['rc'], 'result': j.get('result'), 'returncode': j.get('returncode'), 'run': inv['brief']}
+
+
+def replay_signal(w: dict) -> int:
+    import signal as _signal
+    signo = int(getattr(_signal, w['signal']))
+    out = signal_case_real(''.join(w.get('lines') or []), signo, w.get('invocation') or ())
+    print(f'[C18] replay: stream {w.get("lines")!r} then death by {w["signal"]} through `meson test`: ' +
+          json.dumps({k: v for k, v in out.items() if k != 'run'}))
+    if out.get('error') or out.get('returncode') == SIGNAL_NOT_FATAL_EXIT:
+        print('[C18] replay: could not be re-run (' + str(out.get('error') or 'the signal did not end the program') + ')')
+        return 0
+    still = out.get('result') not in BAD_RESULT_VALUES or out.get('meson_test_exit') == 0 or out.get('returncode') != -signo
+    print('[C18] replay: ' + ('STILL FAILS' if still else 'no longer fails'))
+    return 1 if still else 0
+
+
 def replay(chk: common.Check, path: str) -> int:
     with open(path, encoding='utf-8') as f:
         w = json.load(f)
     load_real()
+    if w.get('signal') and w.get('phase') == 'meson-test':
+        return replay_signal(w)
     lines = w.get('lines') or []
     mech = w.get('mechanism', '?')
     if not w.get('replayable', True):
@@ -1287,10 +1473,16 @@ def main() -> int:
     items.append(('ext', 2, (), '\r\n', deadline, False))
     items += [('core', core_depth, (a, b), '\n', deadline, True) for a in range(nc) for b in range(nc)]
     items += [('ext', ext_depth, (a, b), '\n', deadline, True) for a in range(ne) for b in range(ne)]
+    # the YAML region, deeper: `TAP version 13` (element 0) first, then every sequence over the yaml13 forms
+    ny = len(gen.YAML13)
+    yaml_depth = 6          # (thorough: one level more in step 5, as far as the clock allows)
+    items.append(('yaml13', 2, (0,), '\n', deadline, False))
+    items += [('yaml13', yaml_depth, (0, b, c), '\n', deadline, False) for b in range(ny) for c in range(ny)]
     res = common.pmap(work_exhaustive, items, chk.jobs)
     complete = merge(chk, res, best, totals)
     chk.notes['exhaustive'] = {'core_alphabet': len(gen.CORE), 'core_depth': core_depth, 'extended_alphabet': len(gen.EXTENDED),
-                               'extended_depth': ext_depth, 'complete': complete, 'wall_s': round(time.time() - t0, 1)}
+                               'extended_depth': ext_depth, 'yaml13_alphabet': ny,
+                               'yaml13_depth_including_version_line': yaml_depth, 'complete': complete, 'wall_s': round(time.time() - t0, 1)}
     if not complete:
         chk.inconclusive.append('exhaustive enumeration hit its time cap')
     # ---- 2. random structured streams, arbitrary text ----------------------------------------------------------
@@ -1330,18 +1522,20 @@ def main() -> int:
     # ---- 5. thorough only: one more level of depth for both alphabets, as far as the clock allows -------------------------
     #         (reported in notes; `exhaustive` refers to the mandatory depths above)
     if not quick and complete:
-        for alpha_name, size, depth in (('core', nc, core_depth + 1), ('ext', ne, ext_depth + 1)):
+        for alpha_name, size, depth in (('yaml13', ny, yaml_depth + 1), ('core', nc, core_depth + 1), ('ext', ne, ext_depth + 1)):
             tb = time.time()
-            bdeadline = min(tb + 420.0, t0 + 1050.0)
+            bdeadline = min(tb + (200.0 if alpha_name == 'yaml13' else 420.0), t0 + 1050.0)
             if bdeadline - tb < 30.0:
                 chk.notes[f'deeper_{alpha_name}'] = {'depth': depth, 'streams': 0, 'complete': False, 'why': 'no time left'}
                 continue
             bitems = [(alpha_name, depth, (a, b), '\n', bdeadline, False, True) for a in range(size) for b in range(size)]
+            if alpha_name == 'yaml13':      # `TAP version 13` stays the first line
+                bitems = [(alpha_name, depth, (0, b, c), '\n', bdeadline, False, True) for b in range(size) for c in range(size)]
             random.Random(chk.seed).shuffle(bitems)
             res = common.pmap(work_exhaustive, bitems, chk.jobs)
             bcomplete = merge(chk, res, best, totals)
-            chk.notes[f'deeper_{alpha_name}'] = {'depth': depth, 'streams': sum(r['n'] for r in res), 'of': size ** depth,
-                                                 'complete': bcomplete, 'wall_s': round(time.time() - tb, 1)}
+            chk.notes[f'deeper_{alpha_name}'] = {'depth': depth, 'streams': sum(r['n'] for r in res),
+                                                 'of': size ** (depth - 1 if alpha_name == 'yaml13' else depth), 'complete': bcomplete, 'wall_s': round(time.time() - tb, 1)}
 
     # ---- verdicts -----------------------------------------------------------------------------------------------------
     for mech, ws in sorted(best.items()):
@@ -1367,7 +1561,12 @@ def main() -> int:
 
     for m, n in (('monitor:never-raises', 1000), ('monitor:differential-vs-reftap', 1000), ('monitor:state-and-counters', 1000),
                  ('monitor:parse_line-contract', 100), ('monitor:verdict-fold', 100), ('monitor:meson-test-verdict', 40),
-                 ('monitor:pipeline-vs-direct', 1000), ('observed:pipeline:stream-with-empty-line', 100),
+                 ('monitor:pipeline-vs-direct', 1000), ('monitor:parse_async-never-raises', 1000),
+                 ('monitor:differential-vs-reftap:parse_async', 1000), ('monitor:parse_async-same-events-as-parse', 1000),
+                 ('observed:meson-test:death-by-signal', 100), ('observed:meson-test:death-by-signal-after-good-stream', 80),
+                 ('observed:meson-test:death-by-signal:SIGTERM', 8), ('observed:meson-test:death-by-signal:SIGKILL', 8),
+                 ('observed:meson-test:death-by-signal:SIGSEGV', 8), ('observed:meson-test:death-by-signal:SIGINT', 8),
+                 ('observed:meson-test:death-by-signal:SIGHUP', 8), ('observed:pipeline:stream-with-empty-line', 100),
                  ('observed:meson-test:stream-with-empty-line-before-more', 20),
                  ('observed:meson-test:tap-like-or-other-stderr:no-stdsplit', 20), ('monitor:meson-test-exit-status', 10),
                  ('observed:meson-test-exit:all-good', 2), ('observed:meson-test-exit:some-bad', 8),
@@ -1385,7 +1584,8 @@ def main() -> int:
     return chk.finish(
         rule='case = one line stream; exhaustive: every sequence over the 16-form core alphabet up to length '
              f'{core_depth} and over the {len(gen.EXTENDED)}-form extended alphabet up to length {ext_depth} (each with "\\n"; short ones '
-             'also bare and with "\\r\\n"); random: fault-injected TAP producer (<=200 lines) and arbitrary text; '
+             f'also bare and with "\\r\\n"), `TAP version 13` + every sequence up to length {yaml_depth - 1} over the {len(gen.YAML13)} forms around '
+             'YAML blocks; every stream is parsed through parse() AND parse_async(); random: fault-injected TAP producer (<=200 lines) and arbitrary text; '
              'distinct_nontrivial = distinct outcome signatures of the reference (error-kind set x statuses x plan early/late/skip x '
              'version x YAML x ambiguous)',
         assumptions=[
@@ -1397,6 +1597,10 @@ def main() -> int:
             'not decided by the statement, therefore not compared: numbering once the count mismatches the plan; plan-related kinds after a '
             'second plan; anything after Bail out!; directives on a plan line; explanations of glued directives; streams with lines whose '
             'reading the specification leaves open (counted as streams-spec-ambiguous, contracts only)',
+            'parse_async() is driven by hand over an async iterator that never waits; its events are judged by the same comparison '
+            'with reftap (short-cut: an event list identical to the one of parse(), line by line, has the identical verdict)',
+            'a program that dies by a signal after its stream "exited non-zero": `meson test` must report the test bad and exit non-zero '
+            '(testlog.json result and returncode = -signal); a signal that does not end the emitter is counted, not judged',
             'the verdict fold is compared against the events the real parser produced for the same stream (the parser itself is judged by '
             'the differential); the `meson test` sample is compared end-to-end against reftap',
         ],
